@@ -26,11 +26,11 @@ var (
 )
 
 type e1maps struct {
-	segByMSN  []map[int]string   // per stream: media sequence number -> canonical segment URI
-	partsOf   map[string][]string // canonical segment URI -> canonical part URIs (longest listing seen)
-	msnInfo   []map[int]string   // per stream: msn -> "uri|extinf|gap" (must never change)
-	lastTD    []int
-	lastPT    []int64
+	segByMSN []map[int]string    // per stream: media sequence number -> canonical segment URI
+	partsOf  map[string][]string // canonical segment URI -> canonical part URIs (longest listing seen)
+	msnInfo  []map[int]string    // per stream: msn -> "uri|extinf|gap" (must never change)
+	lastTD   []int
+	lastPT   []int64
 }
 
 func (r *e1run) maps() *e1maps {
